@@ -27,6 +27,10 @@ DISTS = {
     "triangle_right": (("Triangle", 2.75), -1.0, 3.0),
     "normal_inf": (("Normal", 0.2, 1.0), -INF, INF),
     "normal_box": (("Normal", 0.0, 2.0), -12.0, 12.0),
+    # supports far from the origin (interval lengths tiny relative to the coordinates)
+    "uniform_far": (("Uniform",), 1048576.0, 1048577.0),
+    "triangle_far": (("Triangle", 1048576.25), 1048576.0, 1048577.0),
+    "normal_far_mean": (("Normal", 1048576.0, 0.5), -INF, INF),
 }
 
 
@@ -133,10 +137,17 @@ def _tree_case(c):
                 fails.append(fail("midpoint_inside", "interval [%r,%r]: midpoint %r" % (x1, x2, m), key))
                 break
             l, r = float(D.cdf(m) - D.cdf(x1)), float(D.cdf(x2) - D.cdf(m))
-            if abs(l - r) > 1e-10:
+            # (the coordinates themselves are only known to eps*|x|: on supports far from the origin that is a mass of eps*|x|*pdf)
+            if abs(l - r) > 1e-10 + 1e-15 * max(abs(x1), abs(x2)) * 2.0 / min(x2 - x1 if np.isfinite(x2 - x1) else 1.0, 1.0) / max(mass, 1e-3):
                 fails.append(fail("midpoint_halves_probability", "interval [%r,%r]: mid %r, left mass %r right mass %r" % (x1, x2, m, l, r), key))
                 break
-        set_grid(pts, lv)
+        try:
+            set_grid(pts, lv)
+        except AssertionError as e:
+            if "negative weight" not in str(e):
+                raise
+            fails.append(fail("weights_refused", "points %r: AssertionError: %s" % (pts, e), dict(key, far_support=bool(abs(a) > 1e5))))
+            break
         w = np.array(g.weights[dim], dtype=float)
         if np.any(w < 0):
             fails.append(fail("weights_nonnegative", "points %r: %r" % (pts, w.tolist()), key))
